@@ -9,7 +9,10 @@ from .specs import make_store
 
 P = dict(depth=3, width=2, algo="SHA-256", ns=DEFAULT_NS)
 CONTENTS = {"A": pattern(5000, 1), "B": pattern(10, 2), "E": b"", "O": b"\x07", "K": pattern(4096, 5),
-            "L": pattern(3 * 4096 + 7, 6)}
+            "L": pattern(3 * 4096 + 7, 6),
+            # two contents whose sha256 digests start with the same hex digit: one shard directory when depth=width=1
+            "S1": b"same-shard-3", "S2": b"same-shard-5"}
+P11 = dict(depth=1, width=1, algo="SHA-256", ns=DEFAULT_NS)
 DOCS = {"v0": b"<v0/>", "v1": b"<v1-doc/>", "v2": pattern(4096 + 9, 3)}
 
 _CTX = None
@@ -35,6 +38,8 @@ INIT = {
     "p1A+meta": (("store", "p1", "A", None), ("store_meta", "p1", None, "v0")),
     "meta": (("store_meta", "p1", None, "v0"),),
     "meta2": (("store_meta", "p1", None, "v0"), ("store_meta", "p1", "f2", "v0")),
+    "S2unref": (("store_nopid", "S2"),),
+    "p2S2": (("store", "p2", "S2", None),),
     "p1A+meta2": (("store", "p1", "A", None), ("store_meta", "p1", None, "v0"), ("store_meta", "p1", "f2", "v0")),
 }
 WARM = (("store", "p1", "A", None), ("store", "p2", "B", None), ("store", "p3", "A", None),
@@ -42,12 +47,12 @@ WARM = (("store", "p1", "A", None), ("store", "p2", "B", None), ("store", "p3", 
         ("delete", "p1"), ("delete", "p2"), ("delete", "p3"), ("tag", "p1", "N"), ("delete", "p1"))
 
 
-def init_tree(name, pristine=False):
+def init_tree(name, pristine=False, p=None):
     c = ctx()
     root = os.path.join(common.scratch(), "init")
     restore(root, {})
     os.rmdir(root)
-    store = make_store(root, P, {"USE_MULTIPROCESSING": "False"})
+    store = make_store(root, p or P, {"USE_MULTIPROCESSING": "False"})
     if not pristine:
         for op in WARM:
             cls, _ = O.run(store, op, c)
@@ -63,7 +68,8 @@ def init_tree(name, pristine=False):
 def make_scenario(spec):
     """spec: dict(name, init, threads={T1:[ops],..}, mode, pristine, followups, pids, formats, split)"""
     threads = {k: [tuple(op) for op in v] for k, v in spec["threads"].items()}
-    sc = lin.LinScenario(spec["name"], init_tree(spec["init"], spec.get("pristine", False)), threads, P, ctx(),
+    p = P11 if spec.get("p") == "1x1" else P
+    sc = lin.LinScenario(spec["name"], init_tree(spec["init"], spec.get("pristine", False), p), threads, p, ctx(),
                          spec.get("pids", ("p1", "p2", "p3")), spec.get("formats", ()), spec.get("mode", "th"),
                          spec.get("split", False),
                          [tuple(op) for op in spec.get("followups", ())])
